@@ -304,6 +304,13 @@ package coordinator
 //@   at after WriteShard#1: ghost hhok = callresult == nil
 //@   at after WriteShard#2: ghost directfail = callresult != nil
 //@   at after hh.IsRetryable#1: ghost retry = callresult
+//@   ghost islocal bool = false
+//@   ghost remoteok bool = false
+//@   at after NodeID#1: ghost islocal = callresult == owner.NodeID
+//@   at after WriteShard#2: ghost remoteok = callresult == nil
+//@   ghost localok bool = false
+//@   at after dynamic#1: ghost localok = callresult == nil
+//@   at after dynamic#2: ghost localok = callresult == nil
 //@   at after WriteShard#3: ghost hhcalls = hhcalls + 1
 //@   at after WriteShard#3: ghost hhok = callresult == nil
 //@   ensures one_result: sends == 1
@@ -313,6 +320,8 @@ package coordinator
 //@   ensures retryable_failure_is_offered: directfail && retry ==> hhcalls == 1
 //@   ensures refused_handoff_is_an_error: hhcalls == 1 && !hhok ==> !sentok
 //@   ensures any_counts_queued: consistency == models.ConsistencyLevelAny && hhcalls == 1 && hhok ==> sentok
+//@   ensures remote_success_needs_a_copy: sentok && !islocal ==> remoteok || (consistency == models.ConsistencyLevelAny && hhcalls == 1 && hhok)
+//@   ensures local_success_means_stored: sentok && islocal ==> localok
 
 // ---- C05.2: re-partitioning after a node failure never leaves a shard without a live owner ----
 // dirty(n) = node n has failed during this query (a.dirty). If some shard that has owners has only dirty
